@@ -211,7 +211,7 @@ theorem layItem_length : (it : Item) → (t : List Lbl) → (layItem it).length 
   | .str bs, t => by simp [layItem, encItem, layStr_length]
   | .ptr safe o, t => by simp only [layItem, encItem]; split <;> simp
   | .position o, t => by simp [layItem, layPrim, encItem]; omega
-  | .object o cls body, t => by
+  | .object _ o cls body, t => by
     simp only [layItem, encItem, List.length_append, layStr_length, layItems_length body (addUnique t o).1]
     simp [layPrim]; omega
 theorem layItems_length : (w : List Item) → (t : List Lbl) → (layItems w).length = (encItems t w).2.length
